@@ -66,6 +66,13 @@ func concLRU(args []string) int {
 		if hot {
 			g, k, nkeys = 2+r.Intn(3), 1+r.Intn(2), 2
 		}
+		// every fourth hot history: the entries have expired, one goroutine sweeps while the others look the keys up and
+		// store fresh values under them
+		sweepy := hot && h%2 == 0
+		if sweepy {
+			capReq, ttl, real, k, g = 3, 2, 2*time.Hour+30*time.Minute, 2, 3+r.Intn(2)
+			c = cache.NewLRUCache(capReq, real)
+		}
 		var ctr int64
 		var mu sync.Mutex
 		var evs []concEv
@@ -83,7 +90,25 @@ func concLRU(args []string) int {
 				plans[t] = append(plans[t], planned{ops[r.Intn(len(ops))], 1 + r.Intn(nkeys), h*1000 + val})
 			}
 		}
-		if h%3 == 0 || hot { // hot start: every goroutine begins by storing the same, not yet cached key
+		if sweepy {
+			for t := 0; t < g; t++ {
+				kk := 1 + (t+h)%2
+				plans[t] = []planned{{"get", kk, 0}, {"put", kk, h*1000 + 500 + t}}
+			}
+			plans[0] = []planned{{"sweep", 0, 0}}
+			// sequential prefix by a thread of its own: store both keys, then let three hours pass
+			for kk := 1; kk <= 2; kk++ {
+				ce := concEv{Kind: "call", T: 6, Op: "put", K: kk, V: h*1000 + 900 + kk, Tr: h}
+				ce.stamp = atomic.AddInt64(&ctr, 1)
+				c.Put(strconv.Itoa(kk), ce.V)
+				re := ce
+				re.Kind = "ret"
+				re.stamp = atomic.AddInt64(&ctr, 1)
+				evs = append(evs, ce, re)
+			}
+			c.VerifAdvance(3 * time.Hour)
+			evs = append(evs, concEv{Kind: "tick", N: 3, Tr: h, stamp: atomic.AddInt64(&ctr, 1)})
+		} else if h%3 == 0 || hot { // hot start: every goroutine begins by storing the same, not yet cached key
 			for t := 0; t < g; t++ {
 				plans[t][0].op, plans[t][0].k = "put", 1
 				if hot && k > 1 {
@@ -116,6 +141,8 @@ func concLRU(args []string) int {
 						c.Put(key, p.v)
 					case "delete":
 						re.Found = c.Delete(key)
+					case "sweep":
+						re.N = c.CleanupExpired()
 					case "size":
 						re.N = c.Size()
 					case "stats":
@@ -357,6 +384,18 @@ func concSearch(args []string) int {
 		}
 		mdb := database.VerifNewMonitoredDatabase(c.db, 50, 0)
 		var mu sync.Mutex
+		// meanwhile another goroutine keeps invalidating, sweeping and reading statistics (answers are not affected by that)
+		var stopBg int32
+		bgDone := make(chan struct{})
+		go func() {
+			defer close(bgDone)
+			for atomic.LoadInt32(&stopBg) == 0 {
+				mdb.InvalidateCache()
+				mdb.CleanupExpiredCache()
+				mdb.GetCacheStats()
+				time.Sleep(15 * time.Microsecond)
+			}
+		}()
 		for it := 0; it < *rounds*70; it++ {
 			mdb.InvalidateCache()
 			qi := r.Intn(len(hotQ))
@@ -403,6 +442,16 @@ func concSearch(args []string) int {
 				e.Tr = tr
 				w.emit(e)
 			}
+		}
+		atomic.StoreInt32(&stopBg, 1)
+		select {
+		case <-bgDone:
+		case <-time.After(90 * time.Second):
+			tr++
+			w.emit(&csEv{Op: "chang", Tr: tr, Entry: "cache invalidation / sweep / statistics did not return within 90 s"})
+			w.close()
+			fmt.Printf("{\"rounds\": %d, \"events\": %d, \"hang\": true}\n", *rounds, w.n)
+			os.Exit(0)
 		}
 	}
 	// first use of a metric series by several goroutines at once: many fresh monitors, a few records each
